@@ -122,6 +122,18 @@ def fixed_table(ctx, name, nrows):
     return t
 
 
+def rows_are_sequences(ctx, t):
+    """rows of a table are lists or tuples (in particular: not None)"""
+    j = smt.fresh_int('r')
+    ctx.facts.append(z3.ForAll([j], z3.Or(smt.cls(z3.Select(t.rows, j)) == smt.LIST, smt.cls(z3.Select(t.rows, j)) == smt.TUPLE)))
+
+
+def rectangular(ctx, t):
+    """every row has the header's length (the precondition of the rectangular-table properties)"""
+    j = smt.fresh_int('r')
+    ctx.facts.append(z3.ForAll([j], z3.Implies(z3.And(0 <= j, j < t.n), smt.seq_len(z3.Select(t.rows, j)) == smt.seq_len(z3.Select(t.rows, 0)))))
+
+
 def sym_cell(name):
     return SCell(z3.Const(name, V))
 
